@@ -25,7 +25,7 @@ pub static DEF: PropDef = PropDef {
     id: "C04",
     level: "exploration",
     engine: "query",
-    rule: "one run = a generated dataset (20..120 rows, 3 metrics, nullable host label, exact-in-f64 values, timestamps placed minutes / hours / days before and slightly after the virtual now, on hour-bucket edges +-1 ns) ingested through the real Ingester with a drawn flush threshold (so the same rows land in 1..k chunks in different orders), on either catalog backend, with either timestamp column type; 6..12 generated SELECTs whose WHERE confines the timestamp to a finite window by construction (comparisons in both operand orders against integer / TIMESTAMP-literal / now()-relative bounds, BETWEEN, =, AND/OR/NOT nests, unions of windows, label predicates, projections, count/sum/min/max/avg, GROUP BY), each run cold and warm, before and after a real compaction cycle, a third of the runs over a flaky store during the query phase (failed requests, response bodies breaking part-way: a query may fail then, a returned answer must still be exact), with a tiny or large L1 cache and adaptive indexing on or off; the answer must equal the same SQL on a MemTable of all ingested rows (multiset of canonically rendered rows); distinct = distinct (dataset, query text) hash; non-trivial = the reference answer is non-empty or the window straddles data",
+    rule: "one run = a generated dataset (20..120 rows, 3 metrics, nullable host label, exact-in-f64 values, timestamps placed minutes / hours / days before and slightly after the virtual now, on hour-bucket edges +-1 ns, in one run of six also before the epoch) ingested through the real Ingester with a drawn flush threshold (so the same rows land in 1..k chunks in different orders), on either catalog backend, with either timestamp column type; 6..12 generated SELECTs whose WHERE confines the timestamp to a finite window by construction (comparisons in both operand orders against integer / TIMESTAMP-literal / now()-relative bounds, BETWEEN, =, AND/OR/NOT nests, unions of windows, label predicates, projections, count/sum/min/max/avg, GROUP BY), each run cold and warm, before and after a real compaction cycle, a third of the runs over a flaky store during the query phase (failed requests, response bodies breaking part-way: a query may fail then, a returned answer must still be exact), with a tiny or large L1 cache and adaptive indexing on or off; the answer must equal the same SQL on a MemTable of all ingested rows (multiset of canonically rendered rows); distinct = distinct (dataset, query text) hash; non-trivial = the reference answer is non-empty or the window straddles data",
     quick_runs: 600,
     thorough_runs: 10_000,
     run_cap_ms: 120_000,
@@ -72,6 +72,8 @@ fn scen(_spec: RunSpec) -> ScenFut {
             now - 4 * 24 * HOUR,
             now + 5 * 60 * SEC,
         ];
+        // one run in six also holds rows from before the epoch (negative timestamps, on and next to an hour edge)
+        let pre_epoch = sim::w(6) == 5;
         let n_batches = sim::w_range(5, 20);
         let mut all_rows: Vec<Row> = Vec::new();
         let mut points: Vec<i64> = vec![now, now - HOUR, bucket(now), bucket(now) - HOUR];
@@ -101,6 +103,34 @@ fn scen(_spec: RunSpec) -> ScenFut {
         let tok = ing.shutdown_token();
         tok.cancel();
         ing.run_flush_timer().await;
+        if pre_epoch {
+            // chunks of their own (a chunk reaching from 1969 to now would be indexed under ~470 000 hour buckets)
+            let pw = cardinalsin::ingester::ParquetWriter::new();
+            for (k, era) in [-(3 * HOUR) - 17 * 60 * SEC, -(3 * HOUR), -(2 * HOUR) - 1, -40 * 60 * SEC].into_iter().enumerate() {
+                if sim::w_bool(30) {
+                    continue;
+                }
+                let rows: Vec<Row> = (0..sim::w_range(1, 3))
+                    .map(|_| {
+                        let ts = era + [0i64, 1, -1, 7 * SEC][sim::w(4) as usize];
+                        let mut r = gen.row(ts, false);
+                        r.vi = Some(r.id % 11);
+                        r.vf = Some((r.id % 9) as f64 * 0.25);
+                        r
+                    })
+                    .collect();
+                let bytes = pw.write_batch(&batch(variant, &rows)).unwrap();
+                let path = format!("default/data/ancient/chunk_{k}.parquet");
+                store.put(&object_store::path::Path::from(path.clone()), object_store::PutPayload::from(bytes.clone())).await.unwrap();
+                let (mn, mx) = (rows.iter().map(|r| r.ts).min().unwrap(), rows.iter().map(|r| r.ts).max().unwrap());
+                meta.register_chunk(&path, &cardinalsin::ingester::ChunkMetadata { path: path.clone(), min_timestamp: mn, max_timestamp: mx, row_count: rows.len() as u64, size_bytes: bytes.len() as u64 }).await.unwrap();
+                for r in &rows {
+                    points.push(r.ts);
+                }
+                all_rows.extend(rows);
+            }
+            sim::probe("rows-before-the-epoch");
+        }
         let all = batch(variant, &all_rows);
         let n_chunks = meta.list_chunks().await.map(|c| c.len()).unwrap_or(0);
         // configuration "catalog carries statistics": truthful per-column min/max attached through the public
